@@ -71,7 +71,7 @@ func main() {
 				dir, _ = os.MkdirTemp("", "govc")
 				defer os.RemoveAll(dir)
 			}
-			dischargeAll(res.Obls, dir, *timeout, *workers)
+			res.Obls = dischargeGroups(res.Obls, dir, *timeout, *workers)
 			printResult(res, *verbose)
 			if *show != "" {
 				for _, o := range res.Obls {
